@@ -492,3 +492,437 @@ Proof.
   - match type of Hn with rbind ?e _ = _ => destruct e as [s| |] end; cbn [rbind] in Hn; try discriminate.
     destruct (c0 =? 47); discriminate.
 Qed.
+
+(* ---- (iv'') a region further inside an attribute name ----------------------------------------------------------------- *)
+(* the delimiter and the region at position p of the input, as the cursor sees them *)
+Lemma tmpl_here c d l p q : cfg_ok c -> html_inv d l -> lpos (lz l) <= p -> is_region c d p q ->
+  at_ (zat l p) (tb c) = Ok true /\ tmpl_skip c (zat l p) = Ok (zat l q) /\ p < q <= len d.
+Proof.
+  intros Hc Hi Ha Hreg. destruct (is_region_in _ _ _ _ Hreg) as [Hin Hlt]. pose proof (inv_pos0 d l Hi) as Hp0.
+  pose proof Hreg as (_ & Htb & Hpre & _).
+  assert (Hlt0 : 0 < len (tb c)) by (destruct (tb c) as [|x t]; [congruence|rewrite len_cons; pose proof (len_nonneg t); lia]).
+  destruct (zat_wf d l p Hi ltac:(lia)) as [Hw Hrem].
+  assert (Hpre' : prefixb (tb c) (rem (zat l p)) = true) by (rewrite Hrem; exact Hpre).
+  destruct (tmpl_skip_here c (zat l p) Hc Hw Hpre') as [Hsk Hle].
+  assert (Eq : region_end_here c (zat l p) = q).
+  { eapply is_region_fun; [|exact Hreg]. apply region_here; [exact Hi|lia|exact Htb|exact Hpre]. }
+  rewrite Eq in *. pose proof Hi as (_ & Hlen & _).
+  split; [rewrite at_rem by (apply Hc || exact Hw); rewrite Hpre'; reflexivity|].
+  split; [exact Hsk|unfold lx_len, zat in *; cbn [lbuf] in *; lia].
+Qed.
+
+(* a byte of an attribute name at which no delimiter starts *)
+Definition name_plain (c : cfg) (d : list Z) (i : Z) : Prop :=
+  0 <= i < len d /\ prefixb (tb c) (skipz i d) = false /\
+  is_ws (getz d i) = false /\ getz d i <> 61 /\ getz d i <> 62 /\ ~ (getz d i = 47 /\ getz d (i + 1) = 62).
+
+Lemma attrname_step c d l i h : cfg_ok c -> tb c <> [] -> html_inv d l -> lpos (lz l) <= i -> name_plain c d i ->
+  attrname_body c (zat l i, h) = Ok (Cont (zat l (i + 1), h)).
+Proof.
+  intros Hc Htb Hi Ha ((Hi0 & Hi1) & Hpre & Hws & H61 & H62 & H47).
+  destruct (zat_wf d l i Hi ltac:(lia)) as [Hw Hrem].
+  unfold attrname_body, tmpl_at. rewrite (has_delims_true c Htb).
+  rewrite at_rem by (apply Hc || exact Hw). rewrite Hrem, Hpre. cbn [rbind].
+  rewrite (zat_pkr d l i 0 Hi) by lia. rewrite Z.add_0_r. cbn [rbind].
+  unfold is_ws in Hws. b2p.
+  replace (getz d i =? 32) with false by (symmetry; apply Z.eqb_neq; assumption).
+  replace (getz d i =? 61) with false by (symmetry; apply Z.eqb_neq; assumption).
+  replace (getz d i =? 62) with false by (symmetry; apply Z.eqb_neq; assumption). cbn [orb].
+  assert (Hs : (if getz d i =? 47 then c1 <-- pkr (zat l i) 1;; Ok (c1 =? 62) else Ok false) = Ok false).
+  { destruct (getz d i =? 47) eqn:E47; [|reflexivity]. rewrite (zat_pkr d l i 1 Hi) by lia. cbn [rbind].
+    replace (getz d (i + 1) =? 62) with false; [reflexivity|]. symmetry. apply Z.eqb_neq. intros E. apply H47. b2p. tauto. }
+  rewrite Hs. cbn [rbind].
+  replace (getz d i =? 9) with false by (symmetry; apply Z.eqb_neq; assumption).
+  replace (getz d i =? 10) with false by (symmetry; apply Z.eqb_neq; assumption).
+  replace (getz d i =? 13) with false by (symmetry; apply Z.eqb_neq; assumption).
+  replace (getz d i =? 12) with false by (symmetry; apply Z.eqb_neq; assumption). cbn [orb].
+  unfold eof0. rewrite (at_end_zat d l i Hi Hi1), andb_false_r. reflexivity.
+Qed.
+
+(* "done": the flag is set and the cursor is at or after the end q of the region *)
+Definition done_at (z0 : lx) (q : Z) (s : lx) (h : bool) : Prop := samele z0 s /\ h = true /\ q <= lpos s.
+
+Lemma done_keep z0 q s s' h : done_at z0 q s h -> samele s s' -> done_at z0 q s' h.
+Proof. intros (Hs & Hh & Hq) Hs'. split; [eapply samele_trans; eauto|]. destruct Hs' as [_ ?]. split; [exact Hh|lia]. Qed.
+
+Lemma tmpl_rep_done c z0 q fuel s r : done_at z0 q s true -> loop fuel (tmpl_rep_body c) (s, true) = Ok r -> done_at z0 q (fst r) true.
+Proof. intros H0 H. eapply done_keep; [exact H0|]. apply (tmpl_rep_samele _ _ _ _ _ H). Qed.
+
+Lemma attrname_done c z0 q fuel s r : done_at z0 q s true -> loop fuel (attrname_body c) (s, true) = Ok r -> done_at z0 q (fst r) (snd r).
+Proof.
+  intros H0 H.
+  refine (loop_inv (fun x => done_at z0 q (fst x) (snd x)) (fun x => done_at z0 q (fst x) (snd x)) (attrname_body c) _ _ (s, true) r H0 H).
+  clear H0 H. intros [z hz] x Hs Hx. unfold attrname_body in Hx. cbn [fst snd] in *.
+  destruct (tmpl_at c z) as [a| |] eqn:Ea; cbn [rbind] in Hx; try discriminate.
+  destruct a.
+  - destruct (tmpl_skip c z) as [z'| |] eqn:E; cbn [rbind] in Hx; try discriminate. injection Hx as <-. cbn [fst snd].
+    destruct Hs as (S1 & S2 & S3). pose proof (tmpl_skip_run _ _ _ E) as Hk. split; [eapply samele_trans; eauto|]. split; [reflexivity|destruct Hk; lia].
+  - destruct (pkr z 0) as [c0| |]; cbn [rbind] in Hx; try discriminate.
+    match type of Hx with rbind ?e _ = _ => destruct e as [b| |] end; cbn [rbind] in Hx; try discriminate.
+    destruct b; injection Hx as <-; cbn [fst snd]; [exact Hs|]. eapply done_keep; [exact Hs|apply samele_mv; lia].
+Qed.
+
+Lemma attrq_done c z0 q fuel delim s r : done_at z0 q s true -> loop fuel (attrq_body c delim) (s, true) = Ok r -> done_at z0 q (fst r) (snd r).
+Proof.
+  intros H0 H.
+  refine (loop_inv (fun x => done_at z0 q (fst x) (snd x)) (fun x => done_at z0 q (fst x) (snd x)) (attrq_body c delim) _ _ (s, true) r H0 H).
+  clear H0 H. intros [z hz] x Hs Hx. unfold attrq_body in Hx. cbn [fst snd] in *.
+  destruct (pkr z 0) as [c0| |]; cbn [rbind] in Hx; try discriminate.
+  destruct (tmpl_at c z) as [a| |] eqn:Ea; cbn [rbind] in Hx; try discriminate.
+  destruct a.
+  - destruct (tmpl_skip c z) as [z1| |] eqn:E; cbn [rbind] in Hx; try discriminate.
+    destruct (tmpl_rep c z1) as [r1| |] eqn:Er; cbn [rbind] in Hx; try discriminate. injection Hx as <-. cbn [fst snd].
+    destruct Hs as (S1 & S2 & S3). pose proof (tmpl_skip_run _ _ _ E) as Hk. pose proof (tmpl_rep_samele _ _ _ _ _ Er) as Hr.
+    split; [eapply samele_trans; [exact S1|eapply samele_trans; eauto]|]. split; [reflexivity|destruct Hk, Hr; lia].
+  - destruct (c0 =? delim); [injection Hx as <-; cbn [fst snd]; eapply done_keep; [exact Hs|apply samele_mv; lia]|].
+    destruct (eof0 z c0); injection Hx as <-; cbn [fst snd]; [exact Hs|]. eapply done_keep; [exact Hs|apply samele_mv; lia].
+Qed.
+
+Lemma guarded_done c z0 q z r0 : done_at z0 q z true -> tmpl_rep_guarded c z true = Ok r0 -> done_at z0 q (fst r0) (snd r0).
+Proof.
+  intros H0 H. unfold tmpl_rep_guarded in H. destruct (has_delims c); [|injection H as <-; exact H0].
+  destruct (tmpl_rep c z) as [r| |] eqn:Er; cbn [rbind] in H; try discriminate. injection H as <-. cbn [fst snd orb].
+  eapply done_keep; [exact H0|]. apply (tmpl_rep_samele _ _ _ _ _ Er).
+Qed.
+
+(* once the name loop has ended "done", the token ends "done" *)
+Lemma shift_attribute_name_done c l z v l' z0 q :
+  (forall r0 r1, tmpl_rep_guarded c z (lhas l) = Ok r0 -> loop (fuel_of (fst r0)) (attrname_body c) r0 = Ok r1 ->
+                 done_at z0 q (fst r1) (snd r1)) ->
+  shift_attribute c l z = Ok (v, l') -> lhas l' = true /\ q <= lpos (lz l').
+Proof.
+  intros Hname Hx. unfold shift_attribute in Hx.
+  destruct (tmpl_rep_guarded c z (lhas l)) as [r0| |] eqn:E0; cbn [rbind] in Hx; try discriminate.
+  destruct (loop (fuel_of (fst r0)) (attrname_body c) r0) as [r1| |] eqn:E1; cbn [rbind] in Hx; try discriminate.
+  pose proof (Hname r0 r1 eq_refl E1) as H1. destruct r1 as [z1 h1]. cbn [fst snd] in *.
+  assert (Hh1 : h1 = true) by apply H1. subst h1.
+  destruct (ws_loop z1) as [z2| |] eqn:E2; cbn [rbind] in Hx; try discriminate.
+  pose proof (ws_loop_samele _ _ E2) as Hs2.
+  destruct (pkr z2 0) as [c0| |]; cbn [rbind] in Hx; try discriminate.
+  match type of Hx with rbind ?e _ = _ => destruct e as [[[z5 has5] av]| |] eqn:E3 end; cbn [rbind] in Hx; try discriminate.
+  assert (H5 : done_at z0 q z5 has5).
+  { destruct (c0 =? 61).
+    - destruct (ws_loop (mv z2 1)) as [z3| |] eqn:E4; cbn [rbind] in E3; try discriminate.
+      pose proof (ws_loop_samele _ _ E4) as Hs3.
+      assert (H3 : done_at z0 q z3 true).
+      { eapply done_keep; [exact H1|]. eapply samele_trans; [exact Hs2|]. eapply samele_trans; [apply (samele_mv z2 1); lia|exact Hs3]. }
+      destruct (pkr z3 0) as [c1| |]; cbn [rbind] in E3; try discriminate.
+      destruct (tmpl_at c z3) as [t| |] eqn:Et; cbn [rbind] in E3; try discriminate.
+      match type of E3 with rbind ?e _ = _ => destruct e as [r| |] eqn:Er end; cbn [rbind] in E3; try discriminate.
+      destruct (lexeme_from (fst r) (mark z3)) as [vv| |]; cbn [rbind] in E3; try discriminate.
+      injection E3 as <- <- _.
+      destruct t.
+      + destruct (tmpl_skip c z3) as [z4| |] eqn:Ek; cbn [rbind] in Er; try discriminate.
+        destruct (tmpl_rep c z4) as [r4| |] eqn:Er4; cbn [rbind] in Er; try discriminate. injection Er as <-. cbn [fst snd].
+        eapply done_keep; [exact H3|]. eapply samele_trans; [apply (tmpl_skip_run _ _ _ Ek)|apply (tmpl_rep_samele _ _ _ _ _ Er4)].
+      + destruct ((c1 =? 34) || (c1 =? 39)).
+        * eapply attrq_done; [|exact Er]. eapply done_keep; [exact H3|apply samele_mv; lia].
+        * destruct (loop (fuel_of z3) attru_body z3) as [z4| |] eqn:Eu; cbn [rbind] in Er; try discriminate. injection Er as <-. cbn [fst snd].
+          eapply done_keep; [exact H3|apply (attru_loop_samele _ _ _ Eu)].
+    - injection E3 as <- <- _. eapply done_keep; [exact H1|].
+      destruct Hs2 as [[Hb2 Hst2] Hle2]. split; [split; [exact Hb2|exact Hst2]|]. unfold rewind, mark. cbn [lpos]. lia. }
+  assert (Hh5 : has5 = true) by apply H5. subst has5.
+  destruct (tmpl_rep_guarded c z5 true) as [r6| |] eqn:E6; cbn [rbind] in Hx; try discriminate.
+  pose proof (guarded_done _ _ _ _ _ H5 E6) as H6.
+  destruct (lexeme_sub (fst r6) (mark z) (mark z1)) as [t| |]; cbn [rbind] in Hx; try discriminate.
+  match type of Hx with rbind (shiftv ?zz) _ = _ => set (z7 := zz) in * end.
+  assert (Hp7 : lpos z7 = lpos (fst r6)) by (unfold z7; reflexivity).
+  unfold shiftv in Hx. destruct (lexeme_ok z7); cbn [rbind] in Hx; try discriminate. injection Hx as _ <-. cbn [lhas lz fst snd skip lpos].
+  destruct H6 as (_ & H6a & H6b). rewrite Hp7. split; assumption.
+Qed.
+
+(* the name loop started before p over name bytes reaches the region and ends "done" *)
+Lemma attrname_reach_done c d l p q fuel s r : cfg_ok c -> tb c <> [] -> html_inv d l -> is_region c d p q ->
+  samele (lz l) s -> lpos s <= p -> (forall i, lpos s <= i < p -> name_plain c d i) ->
+  loop fuel (attrname_body c) (s, false) = Ok r -> done_at (lz l) q (fst r) (snd r).
+Proof.
+  intros Hc Htb Hi Hreg Hs0 Hp0 Hpl0 H.
+  set (I := fun x : lx * bool => done_at (lz l) q (fst x) (snd x) \/
+              (snd x = false /\ samele (lz l) (fst x) /\ lpos (fst x) <= p /\ forall i, lpos (fst x) <= i < p -> name_plain c d i)).
+  refine (loop_inv I (fun x => done_at (lz l) q (fst x) (snd x)) (attrname_body c) _ _ (s, false) r _ H); [|right; cbn [fst snd]; tauto].
+  clear H r Hs0 Hp0 Hpl0 s. intros [z hz] x HI Hx. unfold I in *. cbn [fst snd] in *. destruct HI as [Hd|(-> & Hs & Hp & Hpl)].
+  - (* already done: one more iteration keeps it *)
+    assert (hz = true) by apply Hd. subst hz.
+    unfold attrname_body in Hx.
+    destruct (tmpl_at c z) as [a| |] eqn:Ea; cbn [rbind] in Hx; try discriminate.
+    destruct a.
+    + destruct (tmpl_skip c z) as [z'| |] eqn:E; cbn [rbind] in Hx; try discriminate. injection Hx as <-. left. cbn [fst snd].
+      destruct Hd as (S1 & S2 & S3). pose proof (tmpl_skip_run _ _ _ E) as Hk. split; [eapply samele_trans; eauto|]. split; [reflexivity|destruct Hk; lia].
+    + destruct (pkr z 0) as [c0| |]; cbn [rbind] in Hx; try discriminate.
+      match type of Hx with rbind ?e _ = _ => destruct e as [b| |] end; cbn [rbind] in Hx; try discriminate.
+      destruct b; injection Hx as <-; cbn [fst snd]; [exact Hd|]. left. eapply done_keep; [exact Hd|apply samele_mv; lia].
+  - destruct Hs as [Hsm Hle]. rewrite (same_zat l z Hsm) in Hx.
+    destruct (Z.eq_dec (lpos z) p) as [E|E].
+    + (* at the region *)
+      destruct (tmpl_here c d l p q Hc Hi ltac:(lia) Hreg) as (Hat & Hsk & Hq). rewrite E in Hx.
+      unfold attrname_body, tmpl_at in Hx. rewrite (has_delims_true c Htb), Hat in Hx. cbn [rbind] in Hx. rewrite Hsk in Hx. cbn [rbind] in Hx.
+      injection Hx as <-. left. cbn [fst snd]. split; [split; [split; reflexivity|unfold zat; cbn [lpos]; lia]|]. split; [reflexivity|unfold zat; cbn [lpos]; lia].
+    + rewrite (attrname_step c d l (lpos z) false Hc Htb Hi Hle (Hpl (lpos z) ltac:(lia))) in Hx. injection Hx as <-. right. cbn [fst snd zat lpos].
+      split; [reflexivity|]. split; [split; [split; reflexivity|unfold zat; cbn [lpos]; lia]|]. split; [lia|]. intros i Hr. apply Hpl. lia.
+Qed.
+
+Lemma inv_pk d l i : html_inv d l -> 0 <= i -> lpos (lz l) + i <= len d -> pk (lz l) i = Some (getz d (lpos (lz l) + i)).
+Proof.
+  intros Hi H0 Hle. pose proof (zat_pkr d l (lpos (lz l)) i Hi ltac:(lia) H0 Hle) as Hpk. rewrite zat_here in Hpk.
+  unfold pkr in Hpk. destruct (pk (lz l) i); cbn in Hpk; congruence.
+Qed.
+
+Lemma html_template_attr_name_proof : forall c d l a p q, cfg_ok c -> tb_plain c -> html_inv d l -> intag l = true ->
+  lstart (lz l) = lpos (lz l) -> lpos (lz l) <= a <= p ->
+  (forall i, lpos (lz l) <= i < a -> is_ws (getz d i) = true) ->           (* whitespace before the name *)
+  (forall i, a <= i < p -> name_plain c d i) ->                            (* name bytes without a delimiter start *)
+  is_region c d p q ->
+  exists v l', next c l = Ok (AttributeT, Some v, l') /\ lhas l' = true /\ so v = lpos (lz l) /\ q <= so v + sn v.
+Proof.
+  intros c d l a p q Hc Hplain Hi Hit Hcl Ha Hws Hname Hreg.
+  pose proof Hplain as (x & t & Etb & Hxws & Hx62 & Hx47).
+  assert (Htb : tb c <> []) by (rewrite Etb; discriminate).
+  pose proof Hi as (Hl & Hlen & Hsuf & _). pose proof Hl as [Hw _]. pose proof (inv_pos0 d l Hi) as H0.
+  destruct (tmpl_here c d l p q Hc Hi ltac:(lia) Hreg) as (Hatp & Hskp & Hq).
+  (* the first byte of the attribute *)
+  assert (Hx0 : getz d p = x).
+  { pose proof Hreg as (_ & _ & Hpre & _). rewrite Etb in Hpre. apply prefixb_head in Hpre. destruct Hpre as [s' Es].
+    unfold getz. rewrite <- (Z.add_0_r p), <- peekz_skipz by lia. rewrite Es, peekz_cons_0. reflexivity. }
+  assert (Hfirst : is_ws (getz d a) = false /\ getz d a <> 62 /\ ~ (getz d a = 47 /\ getz d (a + 1) = 62) /\ a < len d).
+  { destruct (Z.eq_dec a p) as [->|Hne]; [rewrite Hx0; repeat split; try assumption; try lia; intros [? _]; congruence|].
+    destruct (Hname a ltac:(lia)) as ((_ & ?) & _ & ? & _ & ? & ?). tauto. }
+  destruct Hfirst as (Hf1 & Hf2 & Hf3 & Hf4).
+  destruct (html_total_step_proof c d l Hc Hi) as (ty & tk & l' & Hn & Hi').
+  pose proof Hn as Hn0.
+  unfold next in Hn. cbn [lz rawtag intag lerr ltext lattr lhas] in Hn. rewrite Hit in Hn.
+  unfold next_intag in Hn. cbn [lz rawtag intag lerr ltext lattr lhas] in Hn.
+  assert (Hz1 : ws_loop (lz l) = Ok (zat l a)).
+  { replace (zat l a) with (mv (lz l) (a - lpos (lz l))) by (unfold zat, mv; f_equal; lia).
+    unfold ws_loop. apply (ws_loop_func (Z.to_nat (a - lpos (lz l)))); [reflexivity|lia|unfold fuel_of, lx_len in *; lia| |].
+    - intros i Hr. exists (getz d (lpos (lz l) + i)). split; [|apply Hws; lia]. apply (inv_pk d l i Hi); lia.
+    - exists (getz d a). split; [|exact Hf1]. replace a with (lpos (lz l) + (a - lpos (lz l))) at 2 by lia.
+      apply (inv_pk d l _ Hi); lia. }
+  rewrite Hz1 in Hn. cbn [rbind] in Hn.
+  rewrite (zat_pkr d l a 0 Hi) in Hn by lia. rewrite Z.add_0_r in Hn. cbn [rbind] in Hn.
+  unfold eof0 in Hn. rewrite (at_end_zat d l a Hi Hf4), andb_false_r in Hn.
+  replace (getz d a =? 62) with false in Hn by (symmetry; apply Z.eqb_neq; exact Hf2).
+  assert (Hisattr : (if getz d a =? 47 then c1 <-- pkr (zat l a) 1;; Ok (negb (c1 =? 62)) else Ok true) = Ok true).
+  { destruct (getz d a =? 47) eqn:E47; [|reflexivity]. rewrite (zat_pkr d l a 1 Hi) by lia. cbn [rbind].
+    replace (getz d (a + 1) =? 62) with false; [reflexivity|]. symmetry. apply Z.eqb_neq. intros E. apply Hf3. b2p. tauto. }
+  rewrite Hisattr in Hn. cbn [rbind] in Hn.
+  match type of Hn with rbind ?e _ = _ => destruct e as [[v1 l1]| |] eqn:Ea end; cbn [rbind] in Hn; try discriminate.
+  cbn [fst snd] in Hn. injection Hn as <- <- <-.
+  assert (Hsa : samele (lz l) (zat l a)) by (split; [split; reflexivity|cbn [zat lpos]; lia]).
+  pose proof (fun H => shift_attribute_name_done c _ (zat l a) v1 l1 (lz l) q H Ea) as Hsd. cbn [lhas] in Hsd.
+  destruct Hsd as [Hhas Hpos].
+  { intros r0 r1 E0 E1. unfold tmpl_rep_guarded in E0. rewrite (has_delims_true c Htb) in E0.
+    destruct (tmpl_rep c (zat l a)) as [r| |] eqn:Er; cbn [rbind] in E0; try discriminate. injection E0 as <-. cbn [fst snd orb] in *.
+    destruct (Z.eq_dec a p) as [->|Hne].
+    - (* the region is the first thing in the token *)
+      destruct (zat_wf d l p Hi ltac:(lia)) as [Hwp Hremp]. pose proof Hreg as (_ & _ & Hpre & _).
+      destruct (tmpl_rep_first c (zat l p) Hc Htb Hwp ltac:(rewrite Hremp; exact Hpre)) as (r' & Er' & _ & _ & Hrpos & Hrb).
+      rewrite Er in Er'. injection Er' as <-. rewrite Hrb in E1.
+      assert (Hd0 : done_at (lz l) q (fst r) true).
+      { pose proof (tmpl_rep_samele _ _ _ _ _ Er) as Hsr. split; [eapply samele_trans; eauto|]. split; [reflexivity|].
+        assert (Eq : region_end_here c (zat l p) = q) by (eapply is_region_fun; [apply region_here; [exact Hi|lia|exact Htb|exact Hpre]|exact Hreg]).
+        lia. }
+      destruct r as [zr br]. cbn [fst snd] in *. subst br. exact (attrname_done _ _ _ _ _ _ Hd0 E1).
+    - (* the name starts with plain bytes *)
+      destruct (Hname a ltac:(lia)) as (_ & Hnp & _).
+      destruct (zat_wf d l a Hi ltac:(lia)) as [Hwa Hrema].
+      assert (Er0 : tmpl_rep c (zat l a) = Ok (zat l a, false)).
+      { unfold tmpl_rep, fuel_of. cbn [loop]. unfold tmpl_rep_body. cbn [fst snd].
+        rewrite at_rem by (apply Hc || exact Hwa). rewrite Hrema, Hnp. reflexivity. }
+      rewrite Er0 in Er. injection Er as <-. cbn [fst snd] in E1.
+      eapply (attrname_reach_done c d l p q _ (zat l a) r1 Hc Htb Hi Hreg Hsa); [cbn [zat lpos]; lia| |exact E1].
+      cbn [zat lpos]. exact Hname. }
+  exists v1, l1. split; [exact Hn0|]. split; [exact Hhas|].
+  (* the token starts at the cursor and ends at the new cursor *)
+  pose proof (safe_eq _ _ _ (next_spec c l Hc Hl) Hn0) as Hs. cbn [step_post] in Hs.
+  destruct Hs as (_ & _ & _ & _ & (T1 & T2 & T3 & T4 & T5 & _ & T7 & _) & _).
+  assert (so v1 = lpos (lz l)) by (destruct (Z.eq_dec (so v1) (lpos (lz l))); [assumption|destruct T7 as [T7|T7]; [lia|discriminate|discriminate]]).
+  lia.
+Qed.
+
+(* ---- (iv''') a region at the start of an attribute value or inside a quoted value ------------------------------------- *)
+Lemma zat_ws d l a b : html_inv d l -> lpos (lz l) <= a <= b -> b <= len d ->
+  (forall i, a <= i < b -> is_ws (getz d i) = true) -> is_ws (getz d b) = false -> ws_loop (zat l a) = Ok (zat l b).
+Proof.
+  intros Hi Ha Hb Hws Hnw. pose proof Hi as ((Hw & _) & Hlen & _). pose proof (inv_pos0 d l Hi).
+  replace (zat l b) with (mv (zat l a) (b - a)) by (unfold zat, mv; cbn [lbuf lpos lstart]; f_equal; lia).
+  assert (Hpk : forall i, 0 <= i -> a + i <= len d -> pk (zat l a) i = Some (getz d (a + i))).
+  { intros i H0 Hle. pose proof (zat_pkr d l a i Hi ltac:(lia) H0 Hle) as Hpk. unfold pkr in Hpk. destruct (pk (zat l a) i); cbn in Hpk; congruence. }
+  unfold ws_loop. apply (ws_loop_func (Z.to_nat (b - a))); [reflexivity|lia|unfold fuel_of, lx_len, zat in *; cbn [lbuf lpos]; lia| |].
+  - intros i Hr. exists (getz d (a + i)). split; [apply Hpk; lia|apply Hws; lia].
+  - exists (getz d b). split; [|exact Hnw]. replace b with (a + (b - a)) at 2 by lia. apply Hpk; lia.
+Qed.
+
+(* the name loop stops at whitespace or '=' where no delimiter starts *)
+Lemma attrname_stop c d l i h : cfg_ok c -> tb c <> [] -> html_inv d l -> lpos (lz l) <= i <= len d ->
+  prefixb (tb c) (skipz i d) = false -> (is_ws (getz d i) = true \/ getz d i = 61) ->
+  attrname_body c (zat l i, h) = Ok (Brk (zat l i, h)).
+Proof.
+  intros Hc Htb Hi Ha Hpre Hst. pose proof (inv_pos0 d l Hi).
+  destruct (zat_wf d l i Hi ltac:(lia)) as [Hw Hrem].
+  unfold attrname_body, tmpl_at. rewrite (has_delims_true c Htb).
+  rewrite at_rem by (apply Hc || exact Hw). rewrite Hrem, Hpre. cbn [rbind].
+  rewrite (zat_pkr d l i 0 Hi) by lia. rewrite Z.add_0_r. cbn [rbind].
+  destruct Hst as [Hws| ->]; [|reflexivity].
+  apply is_ws_cases in Hws. destruct Hws as [-> |[-> |[-> |[-> | -> ]]]]; reflexivity.
+Qed.
+
+(* a byte inside a quoted value at which no delimiter starts *)
+Definition value_plain (c : cfg) (d : list Z) (qc : Z) (i : Z) : Prop :=
+  0 <= i < len d /\ prefixb (tb c) (skipz i d) = false /\ getz d i <> qc.
+
+Lemma attrq_step c d l qc i h : cfg_ok c -> tb c <> [] -> html_inv d l -> lpos (lz l) <= i -> value_plain c d qc i ->
+  attrq_body c qc (zat l i, h) = Ok (Cont (zat l (i + 1), h)).
+Proof.
+  intros Hc Htb Hi Ha ((Hi0 & Hi1) & Hpre & Hq).
+  destruct (zat_wf d l i Hi ltac:(lia)) as [Hw Hrem].
+  unfold attrq_body. rewrite (zat_pkr d l i 0 Hi) by lia. rewrite Z.add_0_r. cbn [rbind].
+  unfold tmpl_at. rewrite (has_delims_true c Htb).
+  rewrite at_rem by (apply Hc || exact Hw). rewrite Hrem, Hpre. cbn [rbind].
+  replace (getz d i =? qc) with false by (symmetry; apply Z.eqb_neq; exact Hq).
+  unfold eof0. rewrite (at_end_zat d l i Hi Hi1), andb_false_r. reflexivity.
+Qed.
+
+Lemma attrq_reach_done c d l qc p q fuel s r : cfg_ok c -> tb c <> [] -> html_inv d l -> is_region c d p q ->
+  samele (lz l) s -> lpos s <= p -> (forall i, lpos s <= i < p -> value_plain c d qc i) ->
+  loop fuel (attrq_body c qc) (s, false) = Ok r -> done_at (lz l) q (fst r) (snd r).
+Proof.
+  intros Hc Htb Hi Hreg Hs0 Hp0 Hpl0 H.
+  set (I := fun x : lx * bool => done_at (lz l) q (fst x) (snd x) \/
+              (snd x = false /\ samele (lz l) (fst x) /\ lpos (fst x) <= p /\ forall i, lpos (fst x) <= i < p -> value_plain c d qc i)).
+  refine (loop_inv I (fun x => done_at (lz l) q (fst x) (snd x)) (attrq_body c qc) _ _ (s, false) r _ H); [|right; cbn [fst snd]; tauto].
+  clear H r Hs0 Hp0 Hpl0 s. intros [z hz] x HI Hx. unfold I in *. cbn [fst snd] in *. destruct HI as [Hd|(-> & Hs & Hp & Hpl)].
+  - assert (hz = true) by apply Hd. subst hz.
+    assert (Hl1 : loop 1 (attrq_body c qc) (z, true) = match x with Cont _ => NoFuel | Brk r => Ok r end).
+    { cbn [loop]. rewrite Hx. destruct x; reflexivity. }
+    unfold attrq_body in Hx.
+    destruct (pkr z 0) as [c0| |]; cbn [rbind] in Hx; try discriminate.
+    destruct (tmpl_at c z) as [a| |] eqn:Ea; cbn [rbind] in Hx; try discriminate.
+    destruct a.
+    + destruct (tmpl_skip c z) as [z1| |] eqn:E; cbn [rbind] in Hx; try discriminate.
+      destruct (tmpl_rep c z1) as [r1| |] eqn:Er; cbn [rbind] in Hx; try discriminate. injection Hx as <-. left. cbn [fst snd].
+      destruct Hd as (S1 & S2 & S3). pose proof (tmpl_skip_run _ _ _ E) as Hk. pose proof (tmpl_rep_samele _ _ _ _ _ Er) as Hr.
+      split; [eapply samele_trans; [exact S1|eapply samele_trans; eauto]|]. split; [reflexivity|destruct Hk, Hr; lia].
+    + destruct (c0 =? qc); [injection Hx as <-; cbn [fst snd]; eapply done_keep; [exact Hd|apply samele_mv; lia]|].
+      destruct (eof0 z c0); injection Hx as <-; cbn [fst snd]; [exact Hd|]. left. eapply done_keep; [exact Hd|apply samele_mv; lia].
+  - destruct Hs as [Hsm Hle]. rewrite (same_zat l z Hsm) in Hx.
+    destruct (Z.eq_dec (lpos z) p) as [E|E].
+    + destruct (tmpl_here c d l p q Hc Hi ltac:(lia) Hreg) as (Hat & Hsk & Hq). rewrite E in Hx.
+      unfold attrq_body in Hx. rewrite (zat_pkr d l p 0 Hi) in Hx by lia. cbn [rbind] in Hx.
+      unfold tmpl_at in Hx. rewrite (has_delims_true c Htb), Hat in Hx. cbn [rbind] in Hx. rewrite Hsk in Hx. cbn [rbind] in Hx.
+      destruct (tmpl_rep c (zat l q)) as [r1| |] eqn:Er; cbn [rbind] in Hx; try discriminate. injection Hx as <-. left. cbn [fst snd].
+      pose proof (tmpl_rep_samele _ _ _ _ _ Er) as Hr. destruct Hr as [Hr1 Hr2]. unfold zat in Hr1, Hr2. cbn [lpos] in Hr2.
+      split; [split; [eapply same_trans; [|exact Hr1]; split; reflexivity|lia]|]. split; [reflexivity|lia].
+    + rewrite (attrq_step c d l qc (lpos z) false Hc Htb Hi Hle (Hpl (lpos z) ltac:(lia))) in Hx. injection Hx as <-. right. cbn [fst snd].
+      split; [reflexivity|]. split; [split; [split; reflexivity|unfold zat; cbn [lpos]; lia]|]. unfold zat; cbn [lpos]. split; [lia|]. intros i Hr. apply Hpl. lia.
+Qed.
+
+(* the name loop over name bytes up to b, where it stops *)
+Lemma attrname_run_stop c d l b fuel s r : cfg_ok c -> tb c <> [] -> html_inv d l -> b <= len d ->
+  prefixb (tb c) (skipz b d) = false -> (is_ws (getz d b) = true \/ getz d b = 61) ->
+  samele (lz l) s -> lpos s <= b -> (forall i, lpos s <= i < b -> name_plain c d i) ->
+  loop fuel (attrname_body c) (s, false) = Ok r -> r = (zat l b, false).
+Proof.
+  intros Hc Htb Hi Hb Hpre Hst Hs0 Hp0 Hpl0 H.
+  set (I := fun x : lx * bool => snd x = false /\ samele (lz l) (fst x) /\ lpos (fst x) <= b /\ forall i, lpos (fst x) <= i < b -> name_plain c d i).
+  refine (loop_inv I (fun x => x = (zat l b, false)) (attrname_body c) _ _ (s, false) r _ H); [|cbn [fst snd]; unfold I; cbn [fst snd]; tauto].
+  clear H r Hs0 Hp0 Hpl0 s. intros [z hz] x HI Hx. unfold I in *. cbn [fst snd] in *. destruct HI as (-> & Hs & Hp & Hpl).
+  destruct Hs as [Hsm Hle]. rewrite (same_zat l z Hsm) in Hx.
+  destruct (Z.eq_dec (lpos z) b) as [E|E].
+  - rewrite E in Hx. rewrite (attrname_stop c d l b false Hc Htb Hi ltac:(lia) Hpre Hst) in Hx. injection Hx as <-. reflexivity.
+  - rewrite (attrname_step c d l (lpos z) false Hc Htb Hi Hle (Hpl (lpos z) ltac:(lia))) in Hx. injection Hx as <-. cbn [fst snd].
+    split; [reflexivity|]. split; [split; [split; reflexivity|unfold zat; cbn [lpos]; lia]|]. unfold zat; cbn [lpos]. split; [lia|]. intros i Hr. apply Hpl. lia.
+Qed.
+
+(* the shape: ws [lpos,a) name [a,b) ws [b,e) '=' at e, ws (e,v), then at v either the region (p = v) or a quote qc
+   followed by value bytes [v+1,p) without delimiter start and without the quote *)
+Lemma html_template_attr_value_proof : forall c d l a b e v p q, cfg_ok c -> tb_plain c -> html_inv d l -> intag l = true ->
+  lstart (lz l) = lpos (lz l) -> lpos (lz l) <= a -> a < b -> b <= e -> e < v -> v <= p ->
+  (forall i, lpos (lz l) <= i < a -> is_ws (getz d i) = true) ->
+  (forall i, a <= i < b -> name_plain c d i) ->
+  prefixb (tb c) (skipz b d) = false ->
+  (forall i, b <= i < e -> is_ws (getz d i) = true) -> getz d e = 61 ->
+  (forall i, e < i < v -> is_ws (getz d i) = true) ->
+  (v = p \/ (prefixb (tb c) (skipz v d) = false /\ (getz d v = 34 \/ getz d v = 39) /\
+             forall i, v < i < p -> value_plain c d (getz d v) i)) ->
+  is_region c d p q ->
+  exists tk l', next c l = Ok (AttributeT, Some tk, l') /\ lhas l' = true /\ so tk = lpos (lz l) /\ q <= so tk + sn tk.
+Proof.
+  intros c d l a b e v p q Hc Hplain Hi Hit Hcl Ha Hab Hbe Hev Hvp Hws Hname Hpreb Hws2 He61 Hws3 Hval Hreg.
+  pose proof Hplain as (x & t & Etb & Hxws & Hx62 & Hx47).
+  assert (Htb : tb c <> []) by (rewrite Etb; discriminate).
+  pose proof Hi as (Hl & Hlen & Hsuf & _). pose proof Hl as [Hw _]. pose proof (inv_pos0 d l Hi) as H0.
+  destruct (tmpl_here c d l p q Hc Hi ltac:(lia) Hreg) as (Hatp & Hskp & Hq).
+  assert (Hx0 : getz d p = x).
+  { pose proof Hreg as (_ & _ & Hpre & _). rewrite Etb in Hpre. apply prefixb_head in Hpre. destruct Hpre as [s' Es].
+    unfold getz. rewrite <- (Z.add_0_r p), <- peekz_skipz by lia. rewrite Es, peekz_cons_0. reflexivity. }
+  destruct (Hname a ltac:(lia)) as ((_ & Hf4) & Hnpa & Hf1 & _ & Hf2 & Hf3).
+  assert (Hvnw : is_ws (getz d v) = false).
+  { destruct Hval as [->|(_ & [E|E] & _)]; [rewrite Hx0; exact Hxws|rewrite E; reflexivity|rewrite E; reflexivity]. }
+  destruct (html_total_step_proof c d l Hc Hi) as (ty & tk & l' & Hn & Hi').
+  pose proof Hn as Hn0.
+  unfold next in Hn. cbn [lz rawtag intag lerr ltext lattr lhas] in Hn. rewrite Hit in Hn.
+  unfold next_intag in Hn. cbn [lz rawtag intag lerr ltext lattr lhas] in Hn.
+  assert (Hz1 : ws_loop (lz l) = Ok (zat l a)).
+  { rewrite <- (zat_here l) at 1. apply (zat_ws d l _ a Hi); try lia; assumption. }
+  rewrite Hz1 in Hn. cbn [rbind] in Hn.
+  rewrite (zat_pkr d l a 0 Hi) in Hn by lia. rewrite Z.add_0_r in Hn. cbn [rbind] in Hn.
+  unfold eof0 in Hn. rewrite (at_end_zat d l a Hi Hf4), andb_false_r in Hn.
+  replace (getz d a =? 62) with false in Hn by (symmetry; apply Z.eqb_neq; exact Hf2).
+  assert (Hisattr : (if getz d a =? 47 then c1 <-- pkr (zat l a) 1;; Ok (negb (c1 =? 62)) else Ok true) = Ok true).
+  { destruct (getz d a =? 47) eqn:E47; [|reflexivity]. rewrite (zat_pkr d l a 1 Hi) by lia. cbn [rbind].
+    replace (getz d (a + 1) =? 62) with false; [reflexivity|]. symmetry. apply Z.eqb_neq. intros E. apply Hf3. b2p. tauto. }
+  rewrite Hisattr in Hn. cbn [rbind] in Hn.
+  match type of Hn with rbind ?e _ = _ => destruct e as [[v1 l1]| |] eqn:Ea end; cbn [rbind] in Hn; try discriminate.
+  cbn [fst snd] in Hn. injection Hn as <- <- <-.
+  assert (Hsa : samele (lz l) (zat l a)) by (split; [split; reflexivity|unfold zat; cbn [lpos]; lia]).
+  (* through shift_attribute *)
+  assert (Hfin : lhas l1 = true /\ q <= lpos (lz l1)).
+  { unfold shift_attribute in Ea. cbn [lhas] in Ea.
+    destruct (zat_wf d l a Hi ltac:(lia)) as [Hwa Hrema].
+    assert (Er0 : tmpl_rep_guarded c (zat l a) false = Ok (zat l a, false)).
+    { unfold tmpl_rep_guarded. rewrite (has_delims_true c Htb). unfold tmpl_rep, fuel_of. cbn [loop]. unfold tmpl_rep_body. cbn [fst snd].
+      rewrite at_rem by (apply Hc || exact Hwa). rewrite Hrema, Hnpa. reflexivity. }
+    rewrite Er0 in Ea. cbn [rbind fst snd] in Ea.
+    destruct (loop (fuel_of (zat l a)) (attrname_body c) (zat l a, false)) as [r1| |] eqn:E1; cbn [rbind] in Ea; try discriminate.
+    assert (Hr1 : r1 = (zat l b, false)).
+    { eapply (attrname_run_stop c d l b _ (zat l a) r1 Hc Htb Hi ltac:(lia) Hpreb); [| exact Hsa|unfold zat; cbn [lpos]; lia|unfold zat; cbn [lpos]; exact Hname|exact E1].
+      destruct (Z.eq_dec b e) as [->|Hne]; [right; exact He61|left; apply Hws2; lia]. }
+    subst r1. cbn [fst snd] in Ea.
+    rewrite (zat_ws d l b e Hi ltac:(lia) ltac:(lia) Hws2 ltac:(rewrite He61; reflexivity)) in Ea. cbn [rbind] in Ea.
+    rewrite (zat_pkr d l e 0 Hi) in Ea by lia. rewrite Z.add_0_r, He61 in Ea. cbn [rbind Z.eqb] in Ea.
+    replace (mv (zat l e) 1) with (zat l (e + 1)) in Ea by reflexivity.
+    rewrite (zat_ws d l (e + 1) v Hi ltac:(lia) ltac:(lia) ltac:(intros i Hr; apply Hws3; lia) Hvnw) in Ea. cbn [rbind] in Ea.
+    rewrite (zat_pkr d l v 0 Hi) in Ea by lia. rewrite Z.add_0_r in Ea. cbn [rbind Pos.eqb] in Ea.
+    match type of Ea with rbind ?e _ = _ => destruct e as [[[z5 has5] av]| |] eqn:E3 end; cbn [rbind] in Ea; try discriminate.
+    assert (H5 : done_at (lz l) q z5 has5).
+    { unfold tmpl_at in E3. rewrite (has_delims_true c Htb) in E3.
+      destruct Hval as [->|(Hprev & Hqc & Hvp')].
+      - rewrite Hatp in E3. cbn [rbind] in E3. rewrite Hskp in E3. cbn [rbind] in E3.
+        destruct (tmpl_rep c (zat l q)) as [r4| |] eqn:Er4; cbn [rbind] in E3; try discriminate. cbn [fst snd] in E3.
+        destruct (lexeme_from (fst r4) (mark (zat l p))) as [vv| |]; cbn [rbind] in E3; try discriminate. injection E3 as <- <- _.
+        pose proof (tmpl_rep_samele _ _ _ _ _ Er4) as [Hr1 Hr2]. unfold zat in Hr1, Hr2. cbn [lpos] in Hr2.
+        split; [split; [eapply same_trans; [|exact Hr1]; split; reflexivity|lia]|]. split; [reflexivity|lia].
+      - destruct (zat_wf d l v Hi ltac:(lia)) as [Hwv Hremv].
+        rewrite at_rem in E3 by (apply Hc || exact Hwv). rewrite Hremv, Hprev in E3. cbn [rbind] in E3.
+        replace ((getz d v =? 34) || (getz d v =? 39)) with true in E3 by (destruct Hqc as [-> | ->]; reflexivity).
+        replace (mv (zat l v) 1) with (zat l (v + 1)) in E3 by reflexivity.
+        destruct (loop (fuel_of (zat l v)) (attrq_body c (getz d v)) (zat l (v + 1), false)) as [r| |] eqn:Er; cbn [rbind] in E3; try discriminate.
+        destruct (lexeme_from (fst r) (mark (zat l v))) as [vv| |]; cbn [rbind] in E3; try discriminate. injection E3 as <- <- _.
+        eapply (attrq_reach_done c d l (getz d v) p q _ (zat l (v + 1)) r Hc Htb Hi Hreg); [| | |exact Er].
+        + split; [split; reflexivity|unfold zat; cbn [lpos]; lia].
+        + unfold zat; cbn [lpos]. destruct (Z.eq_dec v p); [|lia]. subst p. exfalso.
+          destruct Hreg as (_ & _ & Hpp & _). congruence.
+        + unfold zat; cbn [lpos]. intros i Hr. apply Hvp'. lia. }
+    assert (Hh5 : has5 = true) by apply H5. subst has5.
+    destruct (tmpl_rep_guarded c z5 true) as [r6| |] eqn:E6; cbn [rbind] in Ea; try discriminate.
+    pose proof (guarded_done _ _ _ _ _ H5 E6) as H6.
+    match type of Ea with rbind ?e _ = _ => destruct e as [tt| |] end; cbn [rbind] in Ea; try discriminate.
+    unfold shiftv in Ea. match type of Ea with rbind (if ?b then _ else _) _ = _ => destruct b end; cbn [rbind] in Ea; try discriminate.
+    injection Ea as _ <-. cbn [lhas lz fst snd skip lpos]. destruct H6 as (_ & H6a & H6b). split; assumption. }
+  destruct Hfin as [Hhas Hpos].
+  exists v1, l1. split; [exact Hn0|]. split; [exact Hhas|].
+  pose proof (safe_eq _ _ _ (next_spec c l Hc Hl) Hn0) as Hs. cbn [step_post] in Hs.
+  destruct Hs as (_ & _ & _ & _ & (T1 & T2 & T3 & T4 & T5 & _ & T7 & _) & _).
+  assert (so v1 = lpos (lz l)) by (destruct (Z.eq_dec (so v1) (lpos (lz l))); [assumption|destruct T7 as [T7|T7]; [lia|discriminate|discriminate]]).
+  lia.
+Qed.
